@@ -169,7 +169,7 @@ SPEC["C01"] = {
    grammar + frozen signatures) is compared with the implementation on the exhaustive token
    enumeration and the generated scripts by the check, and the model is compared with the
    implementation on the same inputs.""",
-    "imports": SIEVE_IMPORTS + "From SV Require Import ArgCheckFacts GateFacts.\n",
+    "imports": SIEVE_IMPORTS + "From SV Require Import ArgCheckFacts GateFacts PositionFacts TotalFacts CompleteFacts.\n",
     "theorems": [
         ("C01_argcheck_correct", "ArgCheckFacts.argcheck_correct",
          "feeding an argument sequence to check_next_arg: complete / incomplete / rejected exactly as the specification says, with the same recorded values"),
@@ -177,6 +177,10 @@ SPEC["C01"] = {
         ("C01_argcheck_never_crashes", "ArgCheckFacts.feed_never_crashes", "no AttributeError inside the interpreter"),
         ("C01_generated_tables", "ArgCheckFacts.gen_tables_argcheck_correct",
          "instantiated with every well-formed command of the tables generated from /repo"),
+        ("C01_action_complete", "CompleteFacts.action_complete",
+         "completeness for commands without tests and blocks: `name args ;` with legal, complete arguments is accepted (and the node carries exactly the specified maps)"),
+        ("C01_action_on_text", "CompleteFacts.parse_single_action",
+         "... on texts, for every layout that lexes to these tokens (blanks, line endings)"),
         ("C01_accept_final_state", "GateFacts.parse_accept_reachable",
          "an accepted script ends with an empty command stack, balanced brackets and nothing expected"),
         ("raw", """(* which commands of the current tables the interpreter theorem covers (re-checked on every run) *)
@@ -237,7 +241,7 @@ SPEC["C20"] = {
        applies to scripts using it (C20_register_wf).
    Serialisation re-parsing to the same tree is exercised on the implementation and on the model
    (correspondence with definitions registered at run time), not proved.""",
-    "imports": SIEVE_IMPORTS + "From SV Require Import ArgCheckFacts GateFacts RegisterFacts.\n",
+    "imports": SIEVE_IMPORTS + "From SV Require Import ArgCheckFacts GateFacts RegisterFacts PositionFacts TotalFacts CompleteFacts.\n",
     "theorems": [
         ("C20_argcheck_generic", "ArgCheckFacts.argcheck_correct_gen",
          "generic in the definition: complete / incomplete / rejected exactly as [legal] says, values under the defined names"),
@@ -249,6 +253,8 @@ SPEC["C20"] = {
         ("C20_extension_gate", "RegisterFacts.registered_extension_gate",
          "a registered command with an extension is refused with extension-not-loaded until it is required"),
         ("C20_register_wf", "RegisterFacts.register_wf", "registration preserves table well-formedness (C07's invariant applies)"),
+        ("C20_registered_action_parsed", "CompleteFacts.parse_single_action",
+         "end to end for a registered action (instantiate T := register key d T0, lookup by C20_no_extension): every use the definition allows is accepted and recorded under the defined names"),
     ],
 }
 
@@ -562,6 +568,51 @@ Example C04_model_roundtrip :
       | _ => False
       end
   | _ => False
+  end.
+Proof. vm_compute. reflexivity. Qed.
+'''),
+    ],
+}
+
+COMPLETE_IMPORTS = SIEVE_IMPORTS + "From SV Require Import ArgCheckFacts PositionFacts TotalFacts RegisterFacts CompleteFacts.\n"
+
+SPEC["C03"] = {
+    "header": """C03 — accepted scripts are represented faithfully: nothing dropped or invented.
+
+   Proved here (sieve/CompleteFacts.v) for commands without tests and blocks — every action of the
+   tables (keep, stop, discard, redirect, fileinto, reject, vacation, set, ...) and every registered action of
+   the documented shape: feeding the argument tokens of `name arg_1 ... arg_n ;` (string lists written
+   '[' item (',' item)* ']') through the parser machine gives the SAME frame as feeding the arguments to the
+   table interpreter (C03_run_args), and closing the command with ';' appends exactly one node to the
+   result carrying exactly the argument map and the tag-parameter map the specification [legal] assigns
+   (C03_action_faithful): no token is dropped, overwritten, duplicated or attached to another command;
+   nothing else in the parser state changes.  On texts: every text that lexes — whatever its layout — to those
+   tokens is accepted with that one-node tree (C03_parse_single_action).
+   For tests, test lists, blocks and if/elsif/else chains faithfulness is not proved: every accepted input
+   of the enumerations, structural cases, generated scripts, layouts and mutants is compared with the tree
+   of an independent recursive-descent parser of the RFC 5228 generic grammar (names, nesting, order,
+   every tag with its parameter, nothing else), and the model's tree with the parser's tree.""",
+    "imports": COMPLETE_IMPORTS,
+    "theorems": [
+        ("C03_run_args", "CompleteFacts.run_args",
+         "the argument tokens drive the machine exactly as the arguments drive the table interpreter; brackets, loaded extensions, comments and result are untouched"),
+        ("C03_action_accepted", "CompleteFacts.action_accepted",
+         "`name args ;` at top level appends exactly one node with the frame's maps; the pending hash comments move to it"),
+        ("C03_action_faithful", "CompleteFacts.action_complete",
+         "with the specification: legal and complete arguments give a node with exactly the specified maps"),
+        ("C03_parse_single_action", "CompleteFacts.parse_single_action",
+         "on texts: any layout that lexes to these tokens is accepted with exactly this tree"),
+        ("raw", r'''(* non-vacuity: vacation with tags, a number, a list and a string, from its text *)
+Example C03_vacation_example :
+  parse gen_tables (bs "require ""vacation""; vacation :days 7 :addresses [""a@b"", ""c,d""] :subject ""x\""y"" ""gone"";") =
+  match lookup_cmd gen_tables (bs "require"), lookup_cmd gen_tables (bs "vacation") with
+  | Some rq, Some vac =>
+      Accept [Node rq [(bs "capabilities", VStr (bs """vacation"""))] [] [] [];
+              Node vac [(bs "days", VStr (bs ":days")); (bs "addresses", VStr (bs ":addresses"));
+                        (bs "subject", VStr (bs ":subject")); (bs "reason", VStr (bs """gone"""))]
+                       [(bs "days", VStr (bs "7")); (bs "addresses", VList [bs """a@b"""; bs """c,d"""]);
+                        (bs "subject", VStr (bs """x\""y"""))] [] []]
+  | _, _ => Reject EUnknownToken 0 0
   end.
 Proof. vm_compute. reflexivity. Qed.
 '''),
